@@ -76,6 +76,8 @@ func genBody(spec string) []byte {
 		return b
 	case "jpeg-flat": // n x n grey image of constant value 0x45 ('E'; neighbours are hex digits too)
 		return jpegOf(n, n, 0x45)
+	case "jpeg-white": // n x n white image: the pixels (0xff) are no valid LZW, hex or ASCII85 data
+		return jpegOf(n, n, 0xff)
 	case "jpeg-claim": // a small JPEG whose frame header claims 65535 x 65535
 		b := jpegOf(16, 16, 0x80)
 		if i := bytes.Index(b, []byte{0xff, 0xc0}); i >= 0 {
@@ -456,6 +458,135 @@ func bombCases(ctx *core.Ctx) []*Case {
 		{Class: "abandon/dct-then-runlength", Filter: arr(nm("DCTDecode"), nm("RunLengthDecode")), Parms: none, BodyGen: "jpeg-flat:256", Abandon: 100},
 		{Class: "abandon/dct-then-flate-error", Filter: arr(nm("DCTDecode"), fl), Parms: none, BodyGen: "jpeg-flat:256"},
 		{Class: "full/dct-then-asciihex", Filter: arr(nm("DCTDecode"), nm("ASCIIHexDecode")), Parms: none, BodyGen: "jpeg-flat:64"},
+		// an OUTER stage fails on what a valid inner DCT stage produces: the
+		// caller reads up to the error and closes; the stages below the failed
+		// one must be released all the same (some readers report their sticky
+		// error again from Close)
+		{Class: "outer-error/dct-then-lzw", Filter: arr(nm("DCTDecode"), nm("LZWDecode")), Parms: none, BodyGen: "jpeg-white:128"},
+		{Class: "outer-error/dct-then-asciihex", Filter: arr(nm("DCTDecode"), nm("ASCIIHexDecode")), Parms: none, BodyGen: "jpeg-white:128"},
+		{Class: "outer-error/dct-then-ascii85", Filter: arr(nm("DCTDecode"), nm("ASCII85Decode")), Parms: none, BodyGen: "jpeg-white:128"},
+		{Class: "outer-error/dct-then-lzw-predictor", Filter: arr(nm("DCTDecode"), nm("LZWDecode")),
+			Parms: arr(c06.Val{T: "null"}, dictVal(c06.Dict{"Predictor": intVal(12), "Columns": intVal(4)})), BodyGen: "jpeg-white:128"},
+		{Class: "outer-error/dct-then-asciihex-then-lzw", Filter: arr(nm("DCTDecode"), nm("ASCIIHexDecode"), nm("LZWDecode")), Parms: none, BodyGen: "jpeg-flat:256"},
+		{Class: "outer-error/dct-then-runlength-then-asciihex", Filter: arr(nm("DCTDecode"), nm("RunLengthDecode"), nm("ASCIIHexDecode")), Parms: none, BodyGen: "jpeg-flat:256"},
+		{Class: "outer-error/dct-then-ccitt-then-lzw", Filter: arr(nm("DCTDecode"), nm("CCITTFaxDecode"), nm("LZWDecode")),
+			Parms: arr(c06.Val{T: "null"}, dictVal(c06.Dict{"K": intVal(-1), "Columns": intVal(64)}), c06.Val{T: "null"}), BodyGen: "jpeg-white:128"},
+		{Class: "outer-error/dct-then-lzw-abandoned", Filter: arr(nm("DCTDecode"), nm("LZWDecode")), Parms: none, BodyGen: "jpeg-white:128", Abandon: 10},
+	}
+	return cases
+}
+
+// ---------------------------------------------------------------------------
+// LZW decoder states: a prefix of literal codes drives the decoder's table to
+// a chosen size (around each switch of the code length, the full table, right
+// after a clear code), then every short suffix over {highest table code, the
+// one below, the first undefined code, clear, EOD, a literal} follows.  The
+// code lengths follow the decoder's view of the table (Lzw.WidthFor).
+
+func lzwWidth(next, early int) int {
+	switch {
+	case next+early < 512:
+		return 9
+	case next+early < 1024:
+		return 10
+	case next+early < 2048:
+		return 11
+	}
+	return 12
+}
+
+type lzwEmitter struct {
+	out   []byte
+	cur   uint64
+	n     uint
+	next  int  // the decoder's next free code
+	fresh bool // right after a clear code: the next code adds no entry
+	early int
+}
+
+func (e *lzwEmitter) emit(c int) {
+	w := lzwWidth(e.next, e.early)
+	if e.fresh {
+		w = lzwWidth(e.next-1, e.early)
+	}
+	e.cur = e.cur<<uint(w) | uint64(c)
+	e.n += uint(w)
+	for e.n >= 8 {
+		e.out = append(e.out, byte(e.cur>>(e.n-8)))
+		e.n -= 8
+	}
+	e.cur &= 1<<e.n - 1
+	switch {
+	case c == 256:
+		e.next, e.fresh = 258, true
+	case c == 257:
+	case e.fresh:
+		e.fresh = false
+	case e.next < 4096:
+		e.next++
+	}
+}
+
+func (e *lzwEmitter) bytes() []byte {
+	out := append([]byte(nil), e.out...)
+	if e.n > 0 {
+		out = append(out, byte(e.cur<<(8-e.n)))
+	}
+	return out
+}
+
+func lzwStateCases(ctx *core.Ctx) []*Case {
+	type state struct {
+		name string
+		next int // table size to reach (0: right after the clear code)
+	}
+	var states []state
+	for _, b := range []struct {
+		name string
+		at   int
+	}{{"width9-10", 512}, {"width10-11", 1024}, {"width11-12", 2048}, {"table-full", 4096}} {
+		for d := -3; d <= 1; d++ {
+			if b.at+d <= 4096 {
+				states = append(states, state{b.name, b.at + d})
+			}
+		}
+	}
+	states = append(states, state{"after-clear", 0}, state{"small-table", 260})
+	maxLen := ctx.Pick(3, 4)
+	var suffixes [][]int
+	var rec func(prefix []int)
+	rec = func(prefix []int) {
+		if len(prefix) > 0 {
+			suffixes = append(suffixes, append([]int(nil), prefix...))
+		}
+		if len(prefix) == maxLen {
+			return
+		}
+		for t := 0; t < 6; t++ {
+			rec(append(prefix, t))
+		}
+	}
+	rec(nil)
+	var cases []*Case
+	for _, st := range states {
+		for early := 0; early <= 1; early++ {
+			pre := &lzwEmitter{next: 258, fresh: true, early: early}
+			pre.emit(256)
+			for pre.next < st.next || (st.next > 0 && pre.fresh) {
+				pre.emit(65 + len(pre.out)%3)
+			}
+			top := pre.next - 1
+			tokens := []int{top, top - 1, pre.next, 256, 257, 66}
+			for _, sfx := range suffixes {
+				e := *pre
+				e.out = pre.out[:len(pre.out):len(pre.out)]
+				for _, t := range sfx {
+					e.emit(tokens[t])
+				}
+				cases = append(cases, &Case{Class: "lzw-state/" + st.name, Filter: nm("LZWDecode"),
+					Parms: dictVal(c06.Dict{"EarlyChange": intVal(int64(early))}), body: e.bytes(), Note: fmt.Sprintf("next=%d suffix=%v", st.next, sfx)})
+			}
+		}
 	}
 	return cases
 }
